@@ -29,7 +29,7 @@ def generate(tier, seed):
     gr = [["alice", "admin"], ["bob", "admin"]]
     muts = [A("p", "p", pr[0]), R("p", "p", pr[0]), A("p", "p", pr[1]), R("p", "p", pr[1]), A("p", "p2", pr[2]), R("p", "p2", pr[2]),
             A("g", "g", gr[0]), R("g", "g", gr[0]), AM("p", "p", pr[:2]), RM("p", "p", pr[:2]), RF("p", "p", 0, ["alice"]),
-            RF("g", "g", 0, ["alice"]), "ar:alice:admin:-", "dr:alice:admin:-", "du:alice", "dra:admin", "dpsf:alice",
+            RF("g", "g", 0, ["alice"]), RF("g", "g", 1, ["admin"]), "ar:alice:admin:-", "dr:alice:admin:-", "du:alice", "dra:admin", "dpsf:alice",
             "CL", "LD", "LF:%s:%s" % (enc_rule(["alice"]), enc_rule([])), "SV",
             "SM:" + other_spec(), "SM:" + sp, "SA:" + adapter_M([["p", "p"] + pr[2], ["g", "g"] + gr[1]]), "SA:N",
             "SR:10", "BR", "EE:0", "EE:1", "SE", "AF:keyMatch:neq", "AF:g:eq", "ES:0", "ES:1", "EB:0", "EB:1", "EN:0", "EN:1"]
@@ -59,7 +59,9 @@ def generate(tier, seed):
             dist["exhaustive"] += 1
     # from a state whose role graph is STALE (auto-build off, then a grouping rule removed / added): build_role_links,
     # set_role_manager, reloads and re-enabling auto-build now change decisions
-    for pre in (["EB:0", R("g", "g", gr[0])], ["EB:0", A("g", "g", gr[1]), A("p", "p2", ["bob", "data9", "read"])]):
+    for pre in (["EB:0", R("g", "g", gr[0])], ["EB:0", A("g", "g", gr[1]), A("p", "p2", ["bob", "data9", "read"])],
+                # a grouping rule stored but never linked, auto-build back on: an incremental removal touching it fails half-way
+                ["EB:0", A("g", "g", gr[1]), "EB:1"], ["EB:0", A("g", "g", ["carol", "admin"]), A("g", "g", ["alice", "ops"]), "EB:1"]):
         for m1 in muts:
             steps = list(pre) + qblock() + [m1] + qblock()
             cases.append(case("twin", sp, adapter_M(lines), "-", steps))
